@@ -1,6 +1,7 @@
 // Kani unit json_escape (C05, C14/TOML-keys reuse, C04): table-driven JSON string escaping.
 #![allow(unused, dead_code, non_upper_case_globals)]
 use std::ptr;
+//@include fixed_bytes.rs
 
 //@item crates/jrsonnet-evaluator/src/manifest.rs :: const BB
 //@item crates/jrsonnet-evaluator/src/manifest.rs :: const TT
